@@ -1010,7 +1010,16 @@ def replay_group(job):
                 res['bad'] = {'step': k, 'expected': [alts[j][k] for j in live][:4], 'observed': obs[k],
                               'diff': _diff([alts[j][k] for j in live], obs[k]), 'outcome': outs[k],
                               'start_error': rp.w.start_error, 'obs': obs}
-                if acts[k]['act'] == 'start':
+                best = -1
+                if devalts is not None:
+                    # explained from the first to the last step by the recorded deviation (as-implemented variant)?
+                    best = max((next((j for j in range(len(acts)) if not _match(e[j], obs[j])), len(acts))
+                                for e in devalts), default=0)
+                    res['bad'].update(dev_matched=best, dev_n=len(acts))
+                if best == len(acts):
+                    for key in ('obs', 'expected', 'observed'):
+                        del res['bad'][key]
+                elif acts[k]['act'] == 'start':
                     evs = [e for e in rp.w.trace if e['ev'] in ('boot', 'start', 'ret')]
                     nth = sum(1 for a in acts[:k + 1] if a['act'] == 'start')
                     boots = [i for i, e in enumerate(evs) if e['ev'] == 'boot']
@@ -1019,13 +1028,8 @@ def replay_group(job):
                         res['start_events'] = [evs[b], evs[b + 1]]
                         del res['bad']['obs']
                 elif devalts is not None:
-                    # explained from the first to the last step by the recorded deviation (as-implemented variant)?
-                    best = max((next((j for j in range(len(acts)) if not _match(e[j], obs[j])), len(acts))
-                                for e in devalts), default=0)
-                    res['bad'] = {'step': k, 'diff': res['bad']['diff'], 'outcome': outs[k], 'dev_matched': best,
-                                  'dev_n': len(acts), **({} if best == len(acts) else
-                                                         {'observed': obs[min(best, len(acts) - 1)],
-                                                          'expected': res['bad']['expected'][:2]})}
+                    res['bad']['observed_beyond'] = obs[min(best, len(acts) - 1)]
+                    del res['bad']['obs']
                 break
             live = nxt
         for k, pl in plans.items():
@@ -1439,7 +1443,7 @@ def _gen_pass(chk, name, cfg, nchunks, shapes_per, want_traces, tracebag, strict
                 raise MachineryError(f"{bad['machinery']}: {acts} {x['plans']}")
             detail = {'kind': 'gen', 'cfg': cfg, 'actions': acts, 'types': list(job[3]), 'variant': job[4],
                       'plans': x['plans'], 'failed': {k: v for k, v in bad.items() if k != 'obs'}}
-            if acts[bad['step']]['act'] == 'start' and x.get('start_events'):
+            if x.get('start_events'):
                 sig = start_signature(x['start_events'][0], x['start_events'][1], x['types'])
                 chk.violation(sig, detail)
                 continue
